@@ -11,7 +11,7 @@
   not written to it).
 
   What the statements are about, exactly: the translator's reading of `Do` (tagged switch,
-  `l.mode++`, one value per `Epoch()`/`Now()`/`math.Pow` call, `Step`/`Adjust` as recorded calls,
+  `l.mode++`, one parameter per `Epoch()`/`Now()` call site, `math.Pow` a function applied to its arguments, `Step`/`Adjust` as recorded calls,
   panics as `none`, log statements skipped), over the software double `F64` (tied to the hardware
   by harness f64) and `Int64`. Offsets are `Int64` here, so the model's hypothesis "offsets are
   int64 values" is gone.
@@ -36,8 +36,23 @@ def Call.toIn (x : Call) : Input := ⟨x.epoch.toNat, x.now, x.off.toInt, x.w, x
 
 abbrev Res := Option (S_Pll × List Go.ClkAction)
 
+/-- The generated `(*Pll).Do` in a call during which both readings of `l.clk.Epoch()` returned `e`
+    and `math.Pow`, at the arguments the code passes, returned `pw`. EVERY call of the generated
+    definition is such an instance (`C19_gen_every_call` below: any two epoch readings, any function
+    for `math.Pow`), so the theorems of this file, stated for `genDo`, are about every call. -/
+abbrev genDo (l : S_Pll) (off : Int64) (w : F64) (e : UInt64) (now : Int) (pw : F64) : Res :=
+  adjustments_Pll_Do l off w e e now (fun _ _ => pw)
+
+/-- every call of the regenerated `Do` — two epoch readings `e1`, `e2`, any function `pf` for
+    `math.Pow` — is `genDo` on the receiver after the epoch test, under the epoch kept, with the value
+    of `pf` at `(stiffenRate, dt)` -/
+theorem C19_gen_every_call (l : S_Pll) (off : Int64) (w : F64) (e1 e2 : UInt64) (now : Int) (pf : F64 → F64 → F64) :
+    adjustments_Pll_Do l off w e1 e2 now pf =
+      genDo (readEpoch l e1 e2).1 off w (readEpoch l e1 e2).2 now (pf stiffenRate (dtOf l now)) := by
+  rw [C19_leaf_Do_pow_args, C19_leaf_Do_two_readings]
+
 /-- the generated `(*Pll).Do` on one call -/
-def doCall (l : S_Pll) (x : Call) : Res := adjustments_Pll_Do l x.off x.w x.epoch x.now x.pw
+def doCall (l : S_Pll) (x : Call) : Res := genDo l x.off x.w x.epoch x.now x.pw
 
 /-- receiver after a call (a panic has not written to it) -/
 def next (l : S_Pll) : Res → S_Pll
@@ -58,7 +73,7 @@ theorem pl_gInit : pl gInit = init := rfl
 /-! ## transfer -/
 
 theorem doCall_agree (l : S_Pll) (x : Call) : Agree (doCall l x) (stepIn (pl l) x.toIn) :=
-  C19_leaf_Do l x.off x.w x.epoch x.now x.pw
+  C19_leaf_Do_const l x.off x.w x.epoch x.now x.pw
 
 theorem doCall_some {l l' : S_Pll} {x : Call} {acts : List Go.ClkAction} (h : doCall l x = some (l', acts)) :
     stepIn (pl l) x.toIn = .ok (pl l') (acts.map act) := by
@@ -161,7 +176,7 @@ theorem epoch_iff (l : S_Pll) (e : UInt64) : e.toNat = (pl l).epoch ↔ e = l.ep
     `MinInt64`). For every call and every receiver state. -/
 theorem C19_gen_step_only_when {l l' : S_Pll} {off : Int64} {w pw : F64} {e : UInt64} {now : Int}
     {acts : List Go.ClkAction} {x : Int64}
-    (h : adjustments_Pll_Do l off w e now pw = some (l', acts)) (hx : Go.ClkAction.step x ∈ acts) :
+    (h : genDo l off w e now pw = some (l', acts)) (hx : Go.ClkAction.step x ∈ acts) :
     e = l.epoch ∧ l.mode = 1 ∧ timeSub now l.t0 > 2000000000 ∧ gt w (ofInt 3) = true ∧
     (off.toInt > 1000000 ∨ off.toInt < -1000000) ∧
     x = (if off = Int64.minValue then Int64.minValue + 1 else off) ∧ l'.mode = 2 ∧ acts = [.step x] := by
@@ -180,11 +195,11 @@ theorem C19_gen_step_only_when {l l' : S_Pll} {off : Int64} {w pw : F64} {e : UI
 /-- For every offset but `MinInt64` the clock is stepped by exactly the measured offset. -/
 theorem C19_gen_step_exact {l l' : S_Pll} {off : Int64} {w pw : F64} {e : UInt64} {now : Int}
     {acts : List Go.ClkAction} {x : Int64} (hoff : off ≠ Int64.minValue)
-    (h : adjustments_Pll_Do l off w e now pw = some (l', acts)) (hx : Go.ClkAction.step x ∈ acts) : x = off := by
+    (h : genDo l off w e now pw = some (l', acts)) (hx : Go.ClkAction.step x ∈ acts) : x = off := by
   rw [(C19_gen_step_only_when h hx).2.2.2.2.2.1, if_neg hoff]
 
 /-- non-vacuity: 2 s + 1 ns after the epoch start, weight 4, 5 ms: the code steps by 5 ms -/
-example : (adjustments_Pll_Do { gInit with mode := 1, t0 := 0, t := 0 } 5000000 (ofInt 4) 0 2000000001 fzero).map (·.2)
+example : (genDo { gInit with mode := 1, t0 := 0, t := 0 } 5000000 (ofInt 4) 0 2000000001 fzero).map (·.2)
     = some [.step 5000000] := by decide +kernel
 
 /-! ## 2. Once tracking: only slews; tracking is left only through an epoch change -/
@@ -193,7 +208,7 @@ example : (adjustments_Pll_Do { gInit with mode := 1, t0 := 0, t := 0 } 5000000 
     back. -/
 theorem C19_gen_no_step_after_step_phase {l l' : S_Pll} {off : Int64} {w pw : F64} {e : UInt64} {now : Int}
     {acts : List Go.ClkAction} (he : e = l.epoch) (hm : l.mode = 2 ∨ l.mode = 3)
-    (h : adjustments_Pll_Do l off w e now pw = some (l', acts)) :
+    (h : genDo l off w e now pw = some (l', acts)) :
     l.mode.toNat ≤ l'.mode.toNat ∧ ∀ x, Go.ClkAction.step x ∉ acts := by
   have hs := doCall_some (x := ⟨e, now, off, w, pw⟩) h
   have hm' : 2 ≤ (pl l).mode := by
@@ -209,7 +224,7 @@ theorem C19_gen_no_step_after_step_phase {l l' : S_Pll} {off : Int64} {w pw : F6
 /-- Tracking (mode 3) never steps and stays in mode 3 while the clock epoch is unchanged. -/
 theorem C19_gen_tracking_no_step {l l' : S_Pll} {off : Int64} {w pw : F64} {e : UInt64} {now : Int}
     {acts : List Go.ClkAction} (he : e = l.epoch) (hm : l.mode = 3)
-    (h : adjustments_Pll_Do l off w e now pw = some (l', acts)) :
+    (h : genDo l off w e now pw = some (l', acts)) :
     l'.mode = 3 ∧ l'.epoch = l.epoch ∧ ∀ x, Go.ClkAction.step x ∉ acts := by
   have hs := doCall_some (x := ⟨e, now, off, w, pw⟩) h
   have := C19_tracking_no_step (now := now) (off := off.toInt) (w := w) (pw := pw)
@@ -250,7 +265,7 @@ theorem pl_inj {l l' : S_Pll} (h : pl l = pl l') : l = l' := by
 /-- Whatever the receiver's state, a call that sees a new clock epoch makes no call on the clock and
     leaves the controller in mode 1 with `t0 = t = now` (gains and integrator kept) — never a panic. -/
 theorem C19_gen_epoch_restarts (l : S_Pll) (off : Int64) (w pw : F64) {e : UInt64} (now : Int) (he : e ≠ l.epoch) :
-    adjustments_Pll_Do l off w e now pw = some ({ l with epoch := e, mode := 1, t0 := now, t := now }, []) := by
+    genDo l off w e now pw = some ({ l with epoch := e, mode := 1, t0 := now, t := now }, []) := by
   have hne : e.toNat ≠ (pl l).epoch := fun h => he ((epoch_iff l e).mp h)
   have hm := C19_epoch_restarts (pl l) now off.toInt w pw hne
   obtain ⟨l', acts, hd, hs, ha⟩ := doCall_of_ok (x := ⟨e, now, off, w, pw⟩) hm
@@ -264,7 +279,7 @@ theorem C19_gen_epoch_restarts (l : S_Pll) (off : Int64) (w pw : F64) {e : UInt6
 
 /-- The first call on a fresh controller does the same. -/
 theorem C19_gen_first_update (off : Int64) (w pw : F64) (e : UInt64) (now : Int) :
-    adjustments_Pll_Do gInit off w e now pw = some ({ gInit with epoch := e, mode := 1, t0 := now, t := now }, []) := by
+    genDo gInit off w e now pw = some ({ gInit with epoch := e, mode := 1, t0 := now, t := now }, []) := by
   have hm := C19_first_update e.toNat now off.toInt w pw
   rw [← pl_gInit] at hm
   obtain ⟨l', acts, hd, hs, ha⟩ := doCall_of_ok (l := gInit) (x := ⟨e, now, off, w, pw⟩) hm
@@ -282,7 +297,7 @@ theorem C19_gen_first_update (off : Int64) (w pw : F64) (e : UInt64) (now : Int)
     and its frequency argument is the integrator after the update. -/
 theorem C19_gen_adjust_only_tracking {l l' : S_Pll} {off : Int64} {w pw : F64} {e : UInt64} {now : Int}
     {acts : List Go.ClkAction} {o d : Int64} {f : F64}
-    (h : adjustments_Pll_Do l off w e now pw = some (l', acts)) (ha : Go.ClkAction.adjust o d f ∈ acts) :
+    (h : genDo l off w e now pw = some (l', acts)) (ha : Go.ClkAction.adjust o d f ∈ acts) :
     e = l.epoch ∧ l.mode = 3 ∧ l'.mode = 3 ∧ acts = [.adjust o d f] ∧ f = l'.i ∧
     gt (ceil (durationSeconds (timeSub now l.t))) fzero = true := by
   have hs := doCall_some (x := ⟨e, now, off, w, pw⟩) h
@@ -296,7 +311,7 @@ theorem C19_gen_adjust_only_tracking {l l' : S_Pll} {off : Int64} {w pw : F64} {
 theorem C19_gen_adjust_duration_pos {l l' : S_Pll} {off : Int64} {w pw : F64} {e : UInt64} {now : Int}
     {acts : List Go.ClkAction} {o d : Int64} {f : F64}
     (hmono : l.t ≤ now) (hgap : now - l.t ≤ 9223372035999999999)
-    (h : adjustments_Pll_Do l off w e now pw = some (l', acts)) (ha : Go.ClkAction.adjust o d f ∈ acts) :
+    (h : genDo l off w e now pw = some (l', acts)) (ha : Go.ClkAction.adjust o d f ∈ acts) :
     ∃ D : Int, D = (toRat (durationSeconds (timeSub now l.t))).ceil ∧ 1 ≤ D ∧
       D ≤ (now - l.t) / 1000000000 + 1 ∧ d.toInt = toDuration (.fin (D : Rat)) ∧
       1000000000 ≤ d.toInt ∧ d.toInt ≤ 9223372036854774784 :=
@@ -309,7 +324,7 @@ theorem C19_gen_adjust_duration_pos {l l' : S_Pll} {off : Int64} {w pw : F64} {e
 theorem C19_gen_slew_bound {l l' : S_Pll} {off : Int64} {w pw : F64} {e : UInt64} {now : Int}
     {acts : List Go.ClkAction} {o d : Int64} {f : F64}
     (hg : Gain (pl l)) (hpw : Bd 1 pw) (hmono : l.t ≤ now) (hgap : now - l.t ≤ 7999999999000000000)
-    (h : adjustments_Pll_Do l off w e now pw = some (l', acts)) (ha : Go.ClkAction.adjust o d f ∈ acts) :
+    (h : genDo l off w e now pw = some (l', acts)) (ha : Go.ClkAction.adjust o d f ∈ acts) :
     ∃ D : Int, D = (toRat (durationSeconds (timeSub now l.t))).ceil ∧ 1 ≤ D ∧
       D ≤ (now - l.t) / 1000000000 + 1 ∧
       -(500000 * D) ≤ o.toInt ∧ o.toInt ≤ 500000 * D ∧ d.toInt = toDuration (.fin (D : Rat)) :=
